@@ -13,6 +13,7 @@ import os as _os
 
 from chameleon import loader as ld
 from chameleon import template as ct
+from chameleon.exc import TemplateError
 from chameleon.utils import Scope
 from chameleon.zpt import loader as zl
 from chameleon.zpt import template as zt
@@ -85,7 +86,9 @@ VERSIONS = [
     b'<?xml version="1.0"?>\n<div><p metal:define-macro="m1">A1</p>zero</div>',
     b'<div><p metal:define-macro="m2">B2</p><p metal:define-macro="m1">B1</p>one</div>',
     b'<html><head><meta http-equiv="Content-Type" content="text/plain; charset=latin-1"></head>two</html>',
+    b'<div><p metal:define-macro="m1" tal:content="1 +">broken</p></div>',       # does not compile
 ]
+BROKEN = 3
 PATH = '/model/site/index.pt'
 _PROGRAMS = {}
 
@@ -98,8 +101,15 @@ class FT(zt.PageTemplateFile):
         key = (body, names)      # the digest (file name, options) does not influence the program
         if key not in _PROGRAMS:
             COUNT['compile'] += 1
-            _PROGRAMS[key] = zt.PageTemplateFile._cook(self, body, digest, names)
-        return _PROGRAMS[key]
+            with NoTracing():            # compile() and the compiler's use of inspect/textwrap: a C boundary
+                try:
+                    _PROGRAMS[key] = ('ok', zt.PageTemplateFile._cook(self, body, digest, names))
+                except TemplateError as exc:
+                    _PROGRAMS[key] = ('error', exc)
+        kind, value = _PROGRAMS[key]
+        if kind == 'error':
+            raise value
+        return value
 
 
 def _install_model():
@@ -216,7 +226,7 @@ def prepare(cfg):
     STATE.clear()
     # oracle first, on the unmutated code: the code under test is the reload machinery, the oracle is
     # "a fresh template on that content"
-    STATE['fresh'] = [_fresh(i) for i in range(len(VERSIONS))]
+    STATE['fresh'] = [_fresh(i) for i in range(3)]
     if cfg.get('two_files'):
         fresh = STATE['fresh']
         prepare2()
@@ -306,7 +316,7 @@ def run_history(ops, detail=None):
                     return True
             used_mtimes.append(m)
             if op == 0:
-                cur_v = pick([0, 1, 2], a)
+                cur_v = pick(CFG.get('versions', [0, 1, 2]), a)
                 FILES[PATH] = [VERSIONS[cur_v], m]
             else:
                 FILES[PATH] = [FILES[PATH][0], m]
@@ -319,6 +329,19 @@ def run_history(ops, detail=None):
         elif auto and cur_m != seen_m:
             served_v, seen_m = cur_v, cur_m
             cooks += 1
+        if served_v == BROKEN:
+            # the latest version does not compile: every use says so (nothing of an earlier version is served)
+            # until the file changes again; whether each use retries the compilation is left open
+            try:
+                _use(t, op, a, i, fresh[0], detail)
+                ok = False
+            except TemplateError:
+                pass
+            with NoTracing():
+                cooks = COUNT['cook']
+            if not ok:
+                break
+            continue
         exp = fresh[served_v]
         ok = ok and _use(t, op, a, i, exp, detail)
         # after any use, everything the instance holds belongs to that version, and nothing else
